@@ -126,6 +126,9 @@ def concrete_variants(cls: str, preset, name: str, flags=(True, True, None)):
     yield "options-only-first-frame", head_only
     yield "one-empty-frame-first", b"\x00" + d
     yield "two-empty-frames-first", b"\x00\x00" + head_only
+    if flags[:3] == (True, True, None) and len(name) in (0, 7):
+        for k in (999, 1000, 1001, 4096):
+            yield f"{k}-empty-frames-first", b"\x00" * k + d
 
 
 def run_concrete(case) -> list[tuple[str, str]]:
